@@ -269,6 +269,46 @@ def siblings_rule(rep, prog, cfg):
                   "this receive flavour does not loop 'parse buffered bytes -> read -> classify EOF' with the shared ResponseBuilder")
 
 
+def read_then_parse_rule(rep, prog, cfg):
+    """Between two reads there is always a parse attempt: a 0-byte read can only be taken for the end of
+    the stream after everything received so far has been offered to the parser."""
+    from ..cfg import sccs
+    from .C09 import is_await_cycle, third_party_block
+    from .C10 import READS_EXT
+    rule = "C02.read-then-parse"
+    lb = conn_bodies(prog)
+    for name in ("blocking/receive", "async/receive"):
+        if cfg == "K3" and name.startswith("async"):
+            continue
+        b = lb.get(name)
+        if b is None:
+            continue
+        g = Cfg(b)
+        pb = {bb for bb, t in b.calls() if PARSE in callee_names(t)}
+        rb = {bb for bb, t in b.calls() if any(n in READS for n in callee_names(t))}
+        bad = []
+        for loop in sccs(g.succs, g.live - pb):
+            if is_await_cycle(b, loop) or all(third_party_block(prog, b, x) for x in loop):
+                continue
+            if loop & rb:
+                bad.append(sorted(loop & rb))
+        rep.check(not bad and pb and rb, rule, "%s/%s every cycle through the read passes the parser" % (cfg, name), b.loc(b.span),
+                  "%s can read again without a parse attempt in between: bytes already received are not looked at before a 0-byte read is classified" % name)
+    # read wrappers perform one transport read per call
+    for n in sorted(READS):
+        if n in READS_EXT:
+            continue
+        for wb in body_by_name(prog, n):
+            for fb in family(prog, wb):
+                g = Cfg(fb)
+                for bb, t in fb.calls():
+                    if any(x in READS_EXT for x in callee_names(t)):
+                        in_cycle = any(bb in l for l in g.loops)
+                        rep.check(not in_cycle, rule, "%s/%s reads once per call" % (cfg, n.rsplit("::", 1)[-1]), fb.loc(fb.blocks[bb]["ts"]),
+                                  "the read helper %s reads from the transport in a loop: the count it reports is that of the last read only, so a 0 after a "
+                                  "successful read is mistaken for the end of the stream while received bytes are still unparsed" % n)
+
+
 def run(rep, progs, tier):
     rep.explanation = (
         "Rule-based static analysis (no execution). Decided clauses: (a) only streaming nom combinators "
@@ -285,6 +325,7 @@ def run(rep, progs, tier):
     rep.rule("C02.consume-on-ok", "source buffer shortened only after a successful component parse, by the exact consumed length; Incomplete leaves it untouched")
     rep.rule("C02.persist", "receive buffer/byte count are connection fields written only by connect/receive; same buffer read and parsed; never cleared by receive")
     rep.rule("C02.resize-fresh", "resize lengths derive from a fresh len() of the same buffer in the same loop iteration")
+    rep.rule("C02.read-then-parse", "no cycle through a read avoids the parser; read helpers read once per call")
     rep.rule("C02.siblings", "both receive flavours loop parse->read->EOF over the shared builder")
     rep.trusted = ["rustc MIR construction", "mpdfacts exporter", "nom 7 streaming combinator semantics", "bytes::BytesMut semantics"]
     rep.assume("blocking-connection buffer arithmetic (total_received <= recv_buf.len(), content preservation of split_off/unsplit) is not decided")
@@ -295,3 +336,4 @@ def run(rep, progs, tier):
         persist_rule(rep, prog, cfg)
         resize_rule(rep, prog, cfg)
         siblings_rule(rep, prog, cfg)
+        read_then_parse_rule(rep, prog, cfg)
